@@ -259,6 +259,16 @@ Definition shard_results (H : str -> N) (by_ : bool) (set : list str) (n : N) (e
 Definition sharded (H : str -> N) (by_ : bool) (set : list str) (n : N) (e : qexpr) (D : vector) : option vector :=
   option_map (@concat sample) (all_some (shard_results H by_ set n e D)).
 
+(* queryInstantCodec.MergeResponse / vectorMerge: one sample per label set, the first one seen
+   (all samples carry the same timestamp) *)
+Fixpoint dedup_first (l : vector) : vector :=
+  match l with
+  | [] => []
+  | x :: r => x :: filter (fun y => negb (series_eqb (fst x) (fst y))) (dedup_first r)
+  end.
+
+Definition merge_vectors (rs : list vector) : vector := dedup_first (concat rs).
+
 (* the sharding labels survive every aggregation and every binary operation of e (with the
    metric name, which without() aggregations and binary operations drop) *)
 Fixpoint sound_for (by_ : bool) (set : list str) (e : qexpr) : bool :=
@@ -296,7 +306,7 @@ Inductive case :=
 | CShard (by_ : bool) (set : list str) (n : N) (ls : list label) (tbl : list (str * N)) (obs : list bool)
 | CAnalyze (e : expr) (obs_shardable obs_by : bool) (obs_labels : list str)
 | CEval (e : qexpr) (D : vector) (n : N) (by_ : bool) (set : list str) (tbl : list (str * N))
-        (unsharded : option vector) (shards : list (option vector)).
+        (unsharded : option vector) (shards : list (option vector)) (merged : option vector).
 
 Definition H_of (tbl : list (str * N)) (b : str) : N :=
   match lookup_hash tbl b with Some v => v | None => 0%N end.
@@ -327,7 +337,7 @@ Definition corr_ok (c : case) : bool :=
       let a := analyze e in
       Bool.eqb (shardable a) sh
       && (if sh then match a with St b l => Bool.eqb b by_ && set_eqb l ls | SNone => false end else true)
-  | CEval e D n by_ set tbl unsharded shards =>
+  | CEval e D n by_ set tbl unsharded shards merged =>
       (* the analyzer's answer, every hash value needed, the engine's unsharded result and the
          engine's result on every shard *)
       (match analyze (erase e) with St b l => shardable (St b l) && Bool.eqb b by_ && set_eqb l set | SNone => false end)
@@ -336,6 +346,7 @@ Definition corr_ok (c : case) : bool :=
       && Nat.eqb (length shards) (N.to_nat n)
       && forallb (fun ir => same_result (qeval e (filter (in_shard (H_of tbl) by_ set n (N.of_nat (fst ir))) D)) (snd ir))
                  (combine (seq 0 (N.to_nat n)) shards)
+      && same_result (option_map merge_vectors (all_some shards)) merged
   end.
 
 Definition count_true (l : list bool) : nat := length (filter (fun b => b) l).
@@ -344,10 +355,15 @@ Definition pred_ok (c : case) : bool :=
   match c with
   | CShard _ _ _ _ _ obs => Nat.eqb (count_true obs) 1
   | CAnalyze e sh by_ ls => if sh then compatible (all_scopes e) by_ ls else true
-  | CEval _ _ _ _ _ _ unsharded shards =>
-      (* when the unsharded evaluation succeeds, every shard succeeds and the merged result is the same *)
+  | CEval _ _ _ _ _ _ unsharded shards merged =>
+      (* when the unsharded evaluation succeeds, every shard succeeds, the shard results together
+         are the unsharded result, and so is what the frontend's MergeResponse makes of them *)
       match unsharded with
       | None => true
-      | Some u => match all_some shards with Some rs => same_vector (concat rs) u | None => false end
+      | Some u =>
+          match all_some shards, merged with
+          | Some rs, Some m => same_vector (concat rs) u && same_vector m u
+          | _, _ => false
+          end
       end
   end.
